@@ -69,8 +69,9 @@ Prep(call, newMode) ==
     /\ Log(call, <<>>)
 
 \* tx: interrupt outcome done / timeout
+\* (Transmit is also the mode continuous_wave leaves, with the carrier on: only a prepared payload is sent)
 Tx(irq) ==
-    /\ IF mode = "transmit"
+    /\ IF mode = "transmit" /\ cm # "cw"
        THEN mode' = "standby" /\ cm' = "stdby" /\ UNCHANGED <<cold, calimg, conf>>
        ELSE UNCHANGED <<mode, cold, calimg, cm, conf>>
     /\ Log("tx", irq)
@@ -104,8 +105,7 @@ Listen ==
     /\ Log("listen", <<>>)
 
 \* continuous_wave: prepares like a transmission and starts the unmodulated carrier at once; the driver has no
-\* mode of its own for it and records Transmit (open finding tx-after-cw-unprepared: a tx() straight after it is
-\* accepted)
+\* mode of its own for it and records Transmit, but a tx() straight after it is refused (no payload was prepared)
 Cw ==
     /\ mode' = "transmit" /\ cold' = FALSE /\ calimg' = FALSE /\ cm' = "cw" /\ conf' = PmConf
     /\ Log("cw", <<>>)
